@@ -110,9 +110,10 @@ structure EnvRel (c : Ctx) (root : Val) (env : Env) : Prop where
      | some (some v) => some v
      | some none => none
      | none => if name = "ROOT" ∨ name = "CURRENT" then some root else none)
+  hsome : ∀ name, env.lookup name ≠ some none
 
 theorem EnvRel.init (d : Val) : EnvRel (Ctx.init true d) d [] := by
-  refine ⟨rfl, rfl, ?_⟩
+  refine ⟨rfl, rfl, ?_, by intro name; simp [List.lookup]⟩
   intro name
   by_cases h1 : name = "ROOT"
   · subst h1; simp [Ctx.init, dget, List.lookup]
@@ -146,12 +147,19 @@ theorem dget_dset (k k' : String) (v : Val) (fs : Fields) :
 /-- binding one more variable on both sides keeps the relation -/
 theorem EnvRel.bind {c : Ctx} {root : Val} {env : Env} (h : EnvRel c root env) (name : String)
     (v : Val) : EnvRel (c.bind name v) root ((name, some v) :: env) := by
-  refine ⟨h.hign, h.hroot, ?_⟩
-  intro n
-  simp only [Ctx.bind, dget_dset, List.lookup]
-  by_cases hn : n = name
-  · subst hn; simp
-  · have : (n == name) = false := by simpa using hn
-    simp [hn, this, h.hget n]
+  refine ⟨h.hign, h.hroot, ?_, ?_⟩
+  · intro n
+    simp only [Ctx.bind, dget_dset, List.lookup]
+    by_cases hn : n = name
+    · subst hn; simp
+    · have : (n == name) = false := by simpa using hn
+      simp [hn, this, h.hget n]
+  · intro n
+    simp only [List.lookup]
+    by_cases hn : n = name
+    · subst hn; simp
+    · have : (n == name) = false := by simpa using hn
+      simp only [this]
+      exact h.hsome n
 
 end MongoModel.Proofs.C04
